@@ -32,6 +32,8 @@ THEOREMS = [
     "MCHap.C19.depths_eq_spec_partial",
     "MCHap.C19.depths_ne_spec_witness",
     "MCHap.C19.specDepth_monotone_in_filters",
+    "MCHap.C19.specDepth_filter_effect",
+    "MCHap.C19.indOk_iff",
     "MCHap.C19.keepAllele_iff",
     "MCHap.C19.listed_iff_thresholds",
     "MCHap.C19.emitted_iff_two",
@@ -308,6 +310,8 @@ def parse_model_site(txt):
 
 def parse_impl_record(rec):
     info = rec["INFO"]
+    if "AD" not in info or "ADMF" not in info or any("AD" not in s for s in rec["samples"]):
+        return {"ref": rec["REF"], "alts": list(rec["ALT"]), "masked": "REFMASKED" in info, "pop": [], "admf": [], "ad": []}
     return {"ref": rec["REF"], "alts": list(rec["ALT"]), "masked": "REFMASKED" in info,
             "pop": [int(x) for x in str(info["AD"]).split(",")], "admf": str(info["ADMF"]).split(","),
             "ad": [[int(x) for x in s["AD"].split(",")] for s in rec["samples"]]}
@@ -321,6 +325,10 @@ def compare_site(impl, model, tie_ok):
         return ""
     if impl["ref"] != model["ref"] or impl["masked"] != model["masked"]:
         return "REF / REFMASKED"
+    for x in (impl, model):
+        n = 1 + len(x["alts"])
+        if len(x["pop"]) != n or len(x["admf"]) != n or any(len(s) != n for s in x["ad"]):
+            return "malformed record (field lengths)"
 
     def cols(x):
         out = []
@@ -401,9 +409,9 @@ def run(tier, replay=None):
     ctx = Ctx(chk, drv, tier)
     r = C.rng(PROP)
     work = tempfile.mkdtemp(prefix="c19-", dir=os.environ.get("TMPDIR", "/tmp"))
-    per_stream = {"warm": 1, "quick": 14, "thorough": 140}[tier]
-    n_thresh = {"warm": 4, "quick": 260, "thorough": 2600}[tier]
-    n_cli = {"warm": 1, "quick": 4, "thorough": 30}[tier]
+    per_stream = {"warm": 1, "quick": 45, "thorough": 300}[tier]
+    n_thresh = {"warm": 4, "quick": 1200, "thorough": 7000}[tier]
+    n_cli = {"warm": 1, "quick": 6, "thorough": 40}[tier]
     deviations = {}
 
     def report_deviation(sig, what, case):
@@ -485,10 +493,10 @@ def run(tier, replay=None):
                 ctx.flush()
 
         # mixed synthetic datasets: correspondence only (several causes at once)
-        n_mixed = {"warm": 1, "quick": 5, "thorough": 40}[tier]
+        n_mixed = {"warm": 1, "quick": 10, "thorough": 80}[tier]
         cli_sets = []
         for i in range(n_mixed):
-            feats = set(S.ALL_FEATURES) - {"multi_rg"} if i == 0 else {f for f in S.ALL_FEATURES if f != "multi_rg" and r.random() < 0.5}
+            feats = set(S.ALL_FEATURES) - {"multi_rg"} if i == 0 else {f for f in sorted(S.ALL_FEATURES) if f != "multi_rg" and r.random() < 0.5}
             d = os.path.join(work, f"mixed{i}")
             ds = S.make_dataset(r, d, n_samples=r.choice([1, 2, 3]), n_loci=3, max_snvs=4, depth=(4, 12), read_len=(15, 60),
                                 features=feats, contig_len=300)
@@ -571,23 +579,41 @@ def run(tier, replay=None):
                                                                    [",".join(str(x) for x in d) for d in tensor[p]])])
                 props = [site_property(ref_contig[start + p], tensor[p], th) for p in range(n_pos)]
                 tie_flags = []
+                skip_flags = []
+
+                def dyadic(fr):
+                    d = fr.denominator
+                    return d & (d - 1) == 0
+
                 for pr in props:
                     tie = False
+                    skip = False
                     if pr is not None and n_samples >= 2:
                         ms = [m for a, m in enumerate(pr["mean"]) if m is not None]
-                        tie = len(set(ms)) < len(ms) or (th[0] > 0 and any(m == th[0] for m in ms))
+                        tie = len(set(ms)) < len(ms)
+                        # a mean of >= 2 float frequencies that is exactly --maf: decided by rounding unless every term is dyadic
+                        if th[0] > 0 and not pr["zero_depth_sample"]:
+                            for a in range(4):
+                                fs = [f[a] for f in pr["freq"]]
+                                if sum(fs) / len(fs) == th[0] and not (dyadic(th[0]) and all(dyadic(f) for f in fs)):
+                                    skip = True
                     tie_flags.append(tie)
+                    skip_flags.append(skip)
                 nt = n_samples >= 2 and any(pr is not None and (not pr["meets"][pr["ref"]] and pr["emit"]) for pr in props)
 
-                def cb(model, line=line, case=case, by_pos=by_pos, start=start, n_pos=n_pos, tie_flags=tie_flags, nt=nt):
+                def cb(model, line=line, case=case, by_pos=by_pos, start=start, n_pos=n_pos, tie_flags=tie_flags,
+                       skip_flags=skip_flags, nt=nt):
                     ms = model.split(" ; ") if model != "*" else []
                     chk.case(line, nt, sample={"request": line[:300], "impl": str(by_pos)[:300], "model": model[:300]})
                     if len(ms) != n_pos:
                         raise C.Infra("c19.sites reply length")
                     for p in range(n_pos):
                         m = parse_model_site(ms[p])
+                        if skip_flags[p]:
+                            chk.count("sites:maf-tie-skipped")
+                            continue
                         if tie_flags[p]:
-                            chk.count("sites:tie-skipped")
+                            chk.count("sites:order-tie-compared-as-set")
                         diff = compare_site(by_pos.get(start + p), m, tie_flags[p])
                         if diff:
                             chk.disagreement(f"write_vcf_block != model ({diff})",
@@ -605,8 +631,7 @@ def run(tier, replay=None):
                                           "C19/write_vcf_block/non-acgt-reference")
                         continue
                     code_nan_maf = th[0] > 0 and pr["zero_depth_sample"]
-                    tie_maf = tie_flags[p] and th[0] > 0 and any(m == th[0] for m in pr["mean"] if m is not None)
-                    if tie_maf:
+                    if skip_flags[p]:
                         continue
                     if (rec is not None) != pr["emit"]:
                         sig = "C19/write_vcf_block/maf-nan-with-zero-depth-sample" if code_nan_maf else "C19/write_vcf_block/emitted-iff-two"
@@ -615,6 +640,12 @@ def run(tier, replay=None):
                                       pc, sig)
                         continue
                     if rec is None:
+                        continue
+                    n_cols = 1 + len(rec["alts"])
+                    if len(rec["pop"]) != n_cols or len(rec["admf"]) != n_cols or any(len(x) != n_cols for x in rec["ad"]) \
+                            or any(len(a) != 1 or a not in BASES for a in [rec["ref"]] + rec["alts"]):
+                        chk.violation("malformed record: allele / AD / ADMF columns do not line up", pc,
+                                      "C19/write_vcf_block/malformed-record")
                         continue
                     listed = {BASES.find(a) for a in [rec["ref"]] + rec["alts"]}
                     want = {a for a in range(4) if pr["meets"][a]} | {pr["ref"]}
@@ -703,6 +734,9 @@ def run(tier, replay=None):
             shutil.rmtree(ds.dir, ignore_errors=True)
     finally:
         shutil.rmtree(work, ignore_errors=True)
-    for sig, n in sorted(deviations.items()):
+    sigs = {}
+    for v in chk.violations:
+        sigs[v["signature"]] = sigs.get(v["signature"], 0) + 1
+    for sig, n in sorted(sigs.items()):
         print(f"[C19] deviation signature={sig} cases={n}")
     return chk.finish()
